@@ -62,6 +62,7 @@ type c20SImpl struct {
 	Restarts  int        `json:"restarts"`
 	Finished  bool       `json:"finished"`
 	Inline    int        `json:"inline_accepted"`
+	Mixed     int        `json:"mixed_messages,omitempty"`
 }
 
 var c20Sources = map[c20SrcParams]*c20Source{}
@@ -395,6 +396,8 @@ func (c *c20Sync) run() {
 			c.bad(op)
 		case "twin":
 			c.twin(op)
+		case "mixed":
+			c.mixed(op)
 		case "badblk":
 			c.badq = append(c.badq, op)
 		case "blk":
@@ -674,6 +677,175 @@ func c20GenSync(r *rng, src c20SrcParams, thorough bool) c20SInput {
 	return in
 }
 
+// ---- one MESSAGE with requested nodes, then a node that is refused, then more requested nodes (eighth round) ----
+
+// the bad item of a mixed message: bytes, model term, whether AddMPTNodes has to return an error for it
+func (c *c20Sync) badItem(op c20SOp) ([]byte, string, bool) {
+	n := len(c.nodes)
+	id := ((op.ID % n) + n) % n
+	switch op.Bad {
+	case "trunc":
+		nd := c.nodes[id]
+		if len(nd.bytes) >= 3 {
+			return bytes.Clone(nd.bytes[:1+op.X%(len(nd.bytes)-2)]), "SBad", true
+		}
+	case "empty":
+		return []byte{byte(mpt.EmptyT)}, "SBad", true
+	case "foreign": // a well-formed leaf nobody asked for: skipped without an error, the message goes on
+		w := io.NewBufBinWriter()
+		w.WriteB(byte(mpt.LeafT))
+		w.WriteVarBytes([]byte(fmt.Sprintf("foreign-%d", op.X)))
+		return w.Bytes(), fmt.Sprintf("SForeign %d", n+1+op.X%7), false
+	case "inline": // non-canonical: one child sent inline instead of by hash
+		for j := 0; j < n; j++ {
+			nd := c.nodes[(id+j)%n]
+			if len(nd.kids) == 0 {
+				continue
+			}
+			kid := nd.kids[op.X%len(nd.kids)]
+			needle := append([]byte{byte(mpt.HashT)}, kid.BytesBE()...)
+			if bytes.Count(nd.bytes, needle) != 1 {
+				continue
+			}
+			i := bytes.Index(nd.bytes, needle)
+			kb := c.nodes[c.idOf[kid]].bytes
+			crafted := append(append(bytes.Clone(nd.bytes[:i]), kb...), nd.bytes[i+len(needle):]...)
+			return crafted, fmt.Sprintf("SI %d [%d]", (id+j)%n, c.idOf[kid]), true
+		}
+	}
+	// junk: a type byte no node has, then noise
+	b := []byte{0xf0 | byte(op.X%16)}
+	for j := 0; j < 1+op.X%9; j++ {
+		b = append(b, byte(op.X*31+j*7))
+	}
+	return b, "SBad", true
+}
+
+func (c *c20Sync) storedInDB(id int) bool {
+	_, err := c.bolt.st.Get(append([]byte{byte(storage.DataMPT)}, c.nodes[id].h[:]...))
+	return err == nil
+}
+
+// pool and database together: walking the source trie from the root, below every node that is in the database every child is
+// in the database or requested ("unrequested => stored"); false + the offending node otherwise
+func (c *c20Sync) frontier(requested []int) (bool, int, int) {
+	if _, err := c.bolt.bc.VerifPersist(); err != nil {
+		panic(err)
+	}
+	req := map[int]bool{}
+	for _, u := range requested {
+		req[u] = true
+	}
+	rootID := c.idOf[c.root]
+	if !c.storedInDB(rootID) {
+		return req[rootID], rootID, -1
+	}
+	seen := map[int]bool{rootID: true}
+	queue := []int{rootID}
+	for len(queue) > 0 {
+		id := queue[0]
+		queue = queue[1:]
+		for _, k := range c.nodes[id].kids {
+			kid := c.idOf[k]
+			if seen[kid] {
+				continue
+			}
+			seen[kid] = true
+			if c.storedInDB(kid) {
+				queue = append(queue, kid)
+			} else if !req[kid] {
+				return false, kid, id
+			}
+		}
+	}
+	return true, 0, 0
+}
+
+// Max = number of requested nodes before the bad one, Sel = number after it
+func (c *c20Sync) mixed(op c20SOp) {
+	if c.dead || !c.mod.NeedStorageData() {
+		return
+	}
+	u := c.unknown()
+	if len(u) == 0 || u[len(u)-1] >= len(c.nodes) {
+		return
+	}
+	off := op.X % len(u)
+	u = append(append([]int{}, u[off:]...), u[:off]...)
+	k := min(max(op.Max, 1), len(u))
+	before, after := u[:k], u[k:min(len(u), k+op.Sel)]
+	var data [][]byte
+	var terms []string
+	for _, id := range before {
+		b, t := c.nodeItem(id)
+		data, terms = append(data, b), append(terms, t)
+	}
+	bb, bt, wantErr := c.badItem(op)
+	data, terms = append(data, bb), append(terms, bt)
+	for _, id := range after {
+		b, t := c.nodeItem(id)
+		data, terms = append(data, b), append(terms, t)
+	}
+	nx := len(c.impl.Exec)
+	c.addNodes(data, terms, false, "requested nodes, a refused node, requested nodes in one message")
+	if c.dead || len(c.impl.Exec) == nx {
+		return
+	}
+	c.impl.Mixed++
+	ex := c.impl.Exec[len(c.impl.Exec)-1]
+	what := fmt.Sprintf("%d requested node(s), then a %s node, then %d requested node(s)", len(before), op.Bad, len(after))
+	if ex.Err != wantErr {
+		c.violate("one message with requested nodes and a node to be refused: error returned = %v, expected %v (%s)", ex.Err, wantErr, what)
+		return
+	}
+	now := map[int]bool{}
+	for _, x := range ex.Unknown {
+		now[x] = true
+	}
+	if ok, kid, parent := c.frontier(ex.Unknown); !ok {
+		c.violate("after a refused message a node is neither requested nor in the database although its parent is stored (pool and database disagree: the accepted part of the message was dropped): node %d below %d; %s", kid, parent, what)
+		return
+	}
+	for _, id := range before {
+		if now[id] || !c.storedInDB(id) {
+			c.violate("a requested node delivered BEFORE the refused node of the same message is not restored: node %d requested again = %v, in the database = %v; %s", id, now[id], c.storedInDB(id), what)
+			return
+		}
+	}
+	for _, id := range after {
+		if wantErr && (!now[id] || c.storedInDB(id)) {
+			c.violate("a node delivered AFTER the refused node of the same message was processed although the error was returned: node %d still requested = %v, in the database = %v; %s", id, now[id], c.storedInDB(id), what)
+			return
+		}
+		if !wantErr && (now[id] || !c.storedInDB(id)) {
+			c.violate("a requested node delivered after a skipped foreign node of the same message is not restored: node %d; %s", id, what)
+			return
+		}
+	}
+}
+
+// a synchronisation whose MPT stage is made of mixed messages; no restart before the end unless [control]
+func c20GenMixed(r *rng, src c20SrcParams, control bool) c20SInput {
+	maxP := uint32((src.Height - 1) / c20Interval * c20Interval)
+	nP := int(maxP/c20Interval) - 1
+	P := uint32(2+r.intn(nP)) * c20Interval
+	in := c20SInput{Src: src, Remote: P + uint32(r.intn(2))}
+	add := func(o c20SOp) { in.Ops = append(in.Ops, o) }
+	add(c20SOp{Op: "hdr", To: uint32(src.Height)})
+	add(c20SOp{Op: "req", Max: 1}) // the root
+	kinds := []string{"junk", "inline", "empty", "foreign", "trunc"}
+	for i, k := range []int{1, 2, 5, 1, 2, 5, 2, 5} {
+		if r.chance(60) {
+			add(c20SOp{Op: "req", Max: 1 + r.intn(3), Sel: r.intn(16)})
+		}
+		add(c20SOp{Op: "mixed", Max: k, Sel: 1 + r.intn(3), Bad: kinds[(i+r.intn(2)*3)%len(kinds)], ID: r.intn(400), X: r.intn(1000)})
+		if control {
+			add(c20SOp{Op: "restart"})
+		}
+	}
+	return in
+}
+
 func c20RunSyncCase(co *caseOut, raw json.RawMessage) error {
 	var in c20SInput
 	if err := json.Unmarshal(raw, &in); err != nil {
@@ -695,6 +867,9 @@ func c20RunSyncCase(co *caseOut, raw json.RawMessage) error {
 	}
 	if c.impl.Inline > 0 {
 		tag += "+inline"
+	}
+	if c.impl.Mixed > 0 {
+		tag += fmt.Sprintf("+mixed%d", min(c.impl.Mixed/3*3, 6))
 	}
 	if !c.impl.Finished {
 		tag += "+unfinished"
@@ -754,6 +929,9 @@ func runC20Sync(args []string) error {
 	}
 	for i := 0; i < cf.n; i++ {
 		in := c20GenSync(r, srcs[i%len(srcs)], cf.tier == "thorough")
+		if i%5 == 4 { // every fifth case: mixed messages, alternately without any restart and with one after every message
+			in = c20GenMixed(r, srcs[i%len(srcs)], i%10 == 9)
+		}
 		raw, _ := json.Marshal(in)
 		if err := c20RunSyncCase(co, raw); err != nil {
 			return err
